@@ -59,7 +59,7 @@ ANCHORS = {
 _BUILTIN_METHODS = set(dir(list) + dir(dict) + dir(str) + dir(bytes) + dir(bytearray) + dir(set) + dir(int) + dir(float)) | {
     'put', 'get_nowait', 'put_nowait', 'cancel', 'done', 'write', 'drain', 'close', 'wait_closed', 'read', 'readline', 'readexactly', 'acquire', 'release',
     'locked', 'debug', 'info', 'warning', 'error', 'exception', 'result', 'set', 'wait', 'is_set', 'total_seconds', 'hex', 'flush', 'sleep'}
-_IMMUTABLE_CALLS = {'timedelta', 'frozenset', 'bytes', 'int', 'float', 'str', 'tuple', 'bool'}
+_IMMUTABLE_CALLS = {'timedelta', 'frozenset', 'bytes', 'int', 'float', 'str', 'tuple', 'bool', 'date', 'time', 'datetime'}
 MAX_DEPTH = 4
 
 
